@@ -83,3 +83,45 @@ Theorem c05_altered_header_is_forgery :
     (hmac_key_of sha512 (h_master_seed h) t = hk -> take hlen file <> header ->
      exists m, m <> header /\ take 32 (drop (hlen + 32) file) = header_mac sha512 hmac256 hk m).
 Proof. exact altered_header_is_forgery. Qed.
+
+(* ---------------- END TO END (format/SaveOpen.v) ----------------
+   A file f' that begins with the honest header of a saved database and that open_model accepts under
+   the same credentials as a DIFFERENT database has an empty block stream or contains a forgery
+   against the block tags the writer produced. *)
+From KP Require Import SaveOpen XmlTypes XmlSpec Kdbx4Proofs.
+Theorem c05_altered_saved_file_is_forgery :
+  forall (sha256 sha512 : bytes -> bytes) (hmac256 : bytes -> bytes -> bytes)
+         (kdf : kdfcfg -> bytes -> bytes -> Kdbx4.res bytes)
+         (outer_enc outer_dec : ocipher -> bytes -> bytes -> bytes -> Kdbx4.res bytes)
+         (compress decompress : compression -> bytes -> Kdbx4.res bytes)
+         (gzip : bytes -> bytes) (gunzip : bytes -> option bytes)
+         (render : list ev -> bytes) (lex : bytes -> list ev)
+         (keystream : icipher -> bytes -> bytes)
+         (other_formats : dbversion -> bytes -> Kdbx4.res (list bytes) -> outcome ferr database),
+  (forall c key iv p ct, outer_enc c key iv p = Ok ct -> outer_dec c key iv ct = Ok p) ->
+  (forall z p c, compress z p = Ok c -> decompress z c = Ok p) ->
+  (forall c k, bytes_ok (keystream c k) = true) ->
+  forall (cfg : config) (atts : list attachment) (c : content) (d : draws) (vd : list (bytes * vdval))
+         (elements : Kdbx4.res (list bytes)) (f : bytes) (minor : N) (f' : bytes) (db' : database),
+  let db := mkDb cfg atts c in
+  c_version cfg = KDB4 minor -> (minor < 2 ^ 16)%N ->
+  draws_ok cfg d = true ->
+  Permutation.Permutation vd (vd_of_kdf (c_kdf cfg) (d_kdf_seed d)) ->
+  kdf_params_ok (c_kdf cfg) = true -> atts_ok atts = true ->
+  wf_content gzip gunzip c = true ->
+  lex (render (document gzip keystream db d)) = document gzip keystream db d ->
+  save_model sha256 sha512 hmac256 kdf outer_enc compress gzip render keystream db d vd elements = Ok f ->
+  let header := outer_header_dump minor (c_outer cfg) (c_compression cfg) (d_iv d) (d_master_seed d) vd in
+  take (length header) f' = header ->
+  open_model sha256 sha512 hmac256 kdf outer_dec decompress gunzip lex keystream other_formats f' elements = Ok db' ->
+  db' <> db ->
+  exists (e : list bytes) (t p ct : bytes),
+    elements = Ok e /\
+    kdf (c_kdf cfg) (d_kdf_seed d) (composite_key sha256 e) = Ok t /\
+    compress (c_compression cfg) (inner_header_dump (c_inner cfg) (d_inner_key d) atts ++ render (document gzip keystream db d)) = Ok p /\
+    outer_enc (c_outer cfg) (master_key_of sha256 (d_master_seed d) t) (d_iv d) p = Ok ct /\
+    (let hk := hmac_key_of sha512 (d_master_seed d) t in
+     f = header ++ sha256 header ++ header_mac sha512 hmac256 hk header ++ write_blocks sha512 hmac256 ct hk /\
+     (drop (length header + 64) f' = [] \/
+      Forgery sha512 hmac256 hk (honest_triples ct) (drop (length header + 64) f'))).
+Proof. exact save_open_altered_file. Qed.
